@@ -11,33 +11,7 @@ TRUSTED = ("Trusted base: the govc VC generator (go/ssa -> SMT translation, DESI
            "Partial correctness only (no termination); panics end a path unless the function is marked nopanic; goroutines/locks not modelled.")
 
 # id -> (level category, text, technique, design_ref)
-CLAIMS = {
- "C13": ("proof",
-         "Contracts on the real pool arithmetic (PairV2.CalculateBuyForSell/CalculateSellForBuy/checkSwap/Swap/CalculateAddLiquidity/Mint/Amounts/Burn/Create/"
-         "CheckMint/CheckBurn/update, startingSupply, calcCommission1000/1001/0999) are discharged by SMT for all reserves and amounts (non-linear integer arithmetic, "
-         "unbounded): K never decreases, output <= reserve, share bound, mint-then-burn lemma, minimum liquidity bound. Partial: order-book fills "
-         "(calculate*WithOrders) and the transaction-level crediting of the locked minimum liquidity are not under contract; see evidence 'uncovered'.",
-         "contract-based deductive verification: WP/VC generation over go/ssa + SMT (z3/cvc5)", "DESIGN.md §5 C13"),
- "C09": ("proof",
-         "Representation invariant of the app database cache, proved for every listed AppDB method over a ghost disk (tm-db Get/Set assumed as a read-your-writes map): "
-         "emission and last height are either unset, marked dirty, or decode from what is on disk; setters mark their record dirty (emission, versions, price), Save* "
-         "write what is dirty and clear the flag, getters return the cache or the decoded disk value. Partial: the state-tree modules' caches (order-book lists, "
-         "candidates, coins dirty sets), Blockchain.Commit's call sequence and JSON/RLP codecs (assumed functions) are not under contract.",
-         "contract-based deductive verification: WP/VC generation over go/ssa + SMT (z3/cvc5), ghost disk", "DESIGN.md §5 C09"),
- "C12": ("proof",
-         "The four formula.Calculate* functions are proved against spec functions for all supplies, reserves, ratios and amounts: zero amount, crr==100 integer path "
-         "(floor division), sell-all returns exactly the reserve, results non-negative and bounded by reserve/supply; on the float path the computed value equals "
-         "trunc of the Bancor expression with the right operands and exponent, modulo the A-REAL idealisation (big.Float arithmetic exact, math.Pow = real power with "
-         "four trusted axioms); monotonicity and buy-then-sell lemmas over the postcondition formulas. Not covered: the bounded relative error of Pow/Exp/Log "
-         "(math.Pow is a trusted contract).",
-         "contract-based deductive verification: WP/VC generation over go/ssa + SMT (z3/cvc5), reals idealised", "DESIGN.md §5 C12"),
- "C20": ("proof",
-         "isApplicationHalted, isUpdateCommissionsBlockV2, isUpdateNetworkBlockV2 are proved (loop invariants over recursive support sums, unbounded vote lists) to take effect "
-         "iff 3*support > 2*totalPower for the best-supported proposal (first among equals wins); calculatePowers gives voting power exactly to present, not-dropped "
-         "validators and totals them; IsVoteExists/IsHaltExists (duplicate-vote gates) return true whenever the key occurs in the height's votes. "
-         "Partial: vote transactions' basicCheck (past heights) and the lazily loading getters (trusted representation axioms) are not proved.",
-         "contract-based deductive verification: WP/VC generation over go/ssa + SMT (z3/cvc5)", "DESIGN.md §5 C20"),
-}
+CLAIMS = {k: tuple(v) for k, v in json.load(open('/verif/tools/claims.json')).items()}
 
 NA_REASON = {
  "C11": "export->genesis->export relates two whole-state traversals through IAVL iteration, String()/JSON codecs; no function-level contract expresses it (DESIGN.md §6)",
